@@ -91,10 +91,11 @@ type XOpts struct {
 
 // XGen carries the per-type state of the generator (unique names).
 type XGen struct {
-	R    *coqfmt.Rng
-	O    XOpts
-	next int
-	pool []string
+	R       *coqfmt.Rng
+	O       XOpts
+	next    int
+	pending string
+	pool    []string
 	// Aliased lists the names of fields that received alias tags.
 	Aliased []string
 }
@@ -108,11 +109,23 @@ func NewXGen(r *coqfmt.Rng, o XOpts) *XGen {
 	return g
 }
 
+// names that differ from a pool name only in case (Go field names are case-sensitive)
+var caseVariant = map[string]string{"HTTPPort": "HttpPort", "UserID": "UserId", "JSONPath": "JsonPath",
+	"DBHost": "DbHost", "TLSCert": "TlsCert", "Addr": "ADDR", "Mode": "MODE", "Owner": "OWNER"}
+
 func (g *XGen) name() string {
+	if g.pending != "" {
+		n := g.pending
+		g.pending = ""
+		return n
+	}
 	if g.O.PoolNames && len(g.pool) > 0 && g.R.Chance(1, 4) {
 		i := g.R.Intn(len(g.pool))
 		n := g.pool[i]
 		g.pool = append(g.pool[:i:i], g.pool[i+1:]...)
+		if v, ok := caseVariant[n]; ok && g.R.Chance(1, 2) {
+			g.pending = v // the next field (usually a sibling) differs only in case
+		}
 		return n
 	}
 	g.next++
